@@ -175,6 +175,12 @@ def run_merge(b, cfg, scripts, order, audit_every=50):
     try:
         nsteps = 0
         for cid in order:
+            if isinstance(cid, str) and cid.startswith("Q"):
+                # an operator asks for a report (statistics / configuration): nobody's conversation, and it changes nobody's
+                s.do({"t": "stats"} if cid == "Q0" else {"t": "noise", "line": "-1 ? config"})
+                sent_lines.append(None)
+                nsteps += 1
+                continue
             if isinstance(cid, str):
                 # "R<k>": a SIGUSR1 reload to service table k - a global event at a fixed place of every client's own script
                 s.do({"t": "reload", "services": [list(x) for x in run_merge.tables[int(cid[1:])]]})
@@ -408,7 +414,11 @@ def _worker(a):
             cuts = sorted(rng.sample(range(len(order) // 4, max(len(order) // 4 + 2, len(order) * 3 // 4)), 2 if rng.random() < 0.4 else 1))
             for ri, c in enumerate(cuts):
                 order.insert(c + ri, "R%d" % ri)
-        if tables and any(isinstance(x, str) for x in order):
+            # report requests somewhere after the first reload - in the interleaved run only: the solo references have none
+            first_r = order.index("R0")
+            for _ in range(rng.choice([0, 1, 2])):
+                order.insert(rng.randrange(first_r + 1, len(order) + 1), rng.choice(["Q0", "Q1"]))
+        if tables and any(isinstance(x, str) and x.startswith("R") for x in order):
             refs_now = {}
             for cid in ids:
                 sp = []
@@ -416,7 +426,7 @@ def _worker(a):
                 for x in order:
                     if x == cid:
                         cnt += 1
-                    elif isinstance(x, str):
+                    elif isinstance(x, str) and x.startswith("R"):
                         sp.append(cnt)
                 c_, r_ = solo(cid, sp)
                 if not r_.clean():
